@@ -119,6 +119,22 @@ Proof.
   split; [|exact Z]. apply R. rewrite Z. pose proof (resume_threshold_pos (max (st_sm st'))). lia.
 Qed.
 
+(** 4b. ... and the gate never closes on an idle worker: after every history,
+    when no connection is served and the slab holds no session entry, a
+    connection is admitted whatever the number of listeners and system entries
+    ([fill]) and for every [max_connections >= 1] (before the fix, 8 listeners
+    and [max_connections = 1] were enough to refuse for good). *)
+Theorem idle_admits :
+  forall (ops : list op),
+    let st := run_ops init ops in
+    live st = [] -> backs st = 0 -> 1 <= max (st_sm st) ->
+    snd (check_limits (st_sm st)) = true.
+Proof.
+  intros ops st. apply idle_admits_lemma.
+  - apply run_ops_ok, init_ok.
+  - apply run_ops_slab; [apply init_ok|apply init_slab].
+Qed.
+
 (** 5. Buffer pool: over every history of checkouts and returns, the number of
     buffers in use is the number of checkouts held (back to 0 when all are
     returned), within the capacity, within the maximum; and a checkout is
@@ -164,4 +180,10 @@ Proof. vm_compute. repeat split. Qed.
 Example pool_balance_nonvacuous :
   let p := fold_left pool_step [PCheckout 0; PCheckout 1; PCheckout 2; PCheckin 1] (pool_new 0 2) in
   p_used p = 1 /\ p_cap p = 2 /\ p_held p = [0] /\ snd (pool_checkout (pool_new 0 2) 5) = true.
+Proof. vm_compute. repeat split. Qed.
+
+Example idle_admits_nonvacuous :
+  let st := run_ops init [ONew 1 0; OFill 12] in
+  live st = [] /\ slab (st_sm st) = 12 /\ snd (check_limits (st_sm st)) = true /\
+  snd (check_limits (st_sm (run_ops st [OBackfill 2]))) = false.
 Proof. vm_compute. repeat split. Qed.
